@@ -12,11 +12,14 @@ import Model.FixedTextFloat
     * `strconv.ParseFloat(t, 64)` enters by its documented contract on the DECIMAL grammar
       `[+-]? (digit+ '.'? digit* | '.' digit+) [eE] [+-]? digit+` (whole string): the float64 nearest to the denoted
       number (ties to even, `GoSem.F64.ofRat`); a result of ±Inf is `ErrRange`, an underflow is ±0 without an error;
-      the exponent accumulator saturates as in `strconv.readFloat` (`if e < 10000 { e = e*10 + digit }`).  Every other
-      text is a syntax error — except the two families that reach other grammars of ParseFloat and are left OUTSIDE the
-      model (`outsideExp`): a `0x` / `0X` prefix behind the optional sign (hexadecimal floats) and texts containing an
-      underscore (digit separators).  `inf` / `infinity` / `nan` contain no `e`, so a text of this branch that begins
-      with one of them has trailing bytes and is a syntax error like any other.
+      the exponent accumulator saturates as in `strconv.readFloat` (`if e < 10000 { e = e*10 + digit }`).  The two other
+      grammars of ParseFloat that a text with an 'e' can reach are modelled too (`parseFloatAny`): underscores as digit
+      separators (skipped while reading, then judged by `strconv.underscoreOK`, transcribed as `underscoreOK`) and
+      hexadecimal floats `0x hexdigits [. hexdigits] p [+-] digits` (an 'e' is then a mantissa digit; the value
+      `H·2^(E−4k)` is rounded once, `strconv.atofHex` keeps a sticky bit).  `outsideExp` names these two families: the
+      theorems about the VALUE of a literal are stated for the other texts.  Everything else is a syntax error;
+      `inf` / `infinity` / `nan` contain no `e`, so a text of this branch that begins with one of them has trailing
+      bytes and is a syntax error like any other.
     * `From[T](f)`: the C03 model, `Fixed.F64.fromFloat` (one float product, then Go's float → int64 conversion, which
       is implementation-defined outside the int64 range: `ResX.implDefined`) and `Fixed.F128.fromFloat`
       (`big.Float.Text('f', D+1)` parsed again; `none` = the `big.ErrNaN` panic: `ResX.panic`).
@@ -30,7 +33,6 @@ inductive ResX where
   | err
   | implDefined   -- f64: float → int64 conversion outside the int64 range (Go: implementation-defined)
   | panic         -- f128: `big.Float.SetFloat64(NaN)` panics
-  | outside       -- hexadecimal float or underscore separators: not modelled
 deriving DecidableEq, Repr
 
 /-- `strconv.readFloat`, exponent digits: `if e < 10000 { e = e*10 + int(s[i]) - '0' }` -/
@@ -41,17 +43,19 @@ def splitExp : Str → Str × Option Str
   | [] => ([], none)
   | c :: t => if c = 69 ∨ c = 101 then ([], some t) else (c :: (splitExp t).1, (splitExp t).2)
 
+/-- the text behind an optional sign -/
+def dropSign : Str → Str
+  | 45 :: r => r
+  | 43 :: r => r
+  | r => r
+
 /-- behind an optional sign: `0x` / `0X` (ParseFloat switches to the hexadecimal grammar) -/
 def hexPrefixed (t : Str) : Bool :=
-  let body := match t with
-    | 45 :: r => r
-    | 43 :: r => r
-    | r => r
-  match body with
+  match dropSign t with
   | 48 :: c :: _ => c == 120 || c == 88
   | _ => false
 
-/-- the two families of texts that are not modelled -/
+/-- the two families of texts that are not plain decimal exponent literals (hexadecimal floats, underscores) -/
 def outsideExp (t : Str) : Bool := hexPrefixed t || t.any (· == 95)
 
 /-- sign and digits of the exponent: `[+-]? digit+` -/
@@ -77,7 +81,7 @@ def expValue (neg : Bool) (N k : Nat) (E : Int) : Flt :=
   else if E - k ≥ 0 then GoSem.F64.ofRat neg (N * 10^(E - k).toNat) 1
   else GoSem.F64.ofRat neg N (10^(-(E - k)).toNat)
 
-/-- `strconv.ParseFloat(t, 64)` on a text that is not `outsideExp`: `none` = an error (syntax, or range: ±Inf) -/
+/-- `strconv.ParseFloat(t, 64)` on a plain decimal exponent text (not `outsideExp`): `none` = an error (syntax, or range: ±Inf) -/
 def parseFloatExp (t : Str) : Option Flt :=
   match parseExpLit? t with
   | none => none
@@ -86,25 +90,122 @@ def parseFloatExp (t : Str) : Option Flt :=
     | .inf _ => none
     | x => some x
 
+/-! ### the rest of `strconv.ParseFloat`'s grammar: underscores and hexadecimal floats -/
+
+def isHexLetter (c : Nat) : Bool := (65 ≤ c && c ≤ 70) || (97 ≤ c && c ≤ 102)
+def isHexDigit (c : Nat) : Bool := isDigit c || isHexLetter c
+def hexVal (c : Nat) : Nat := if isDigit c then c - 48 else if c ≤ 70 then c - 55 else c - 87
+def parseHexDigits (ds : Str) : Nat := ds.foldl (fun acc c => acc * 16 + hexVal c) 0
+
+/-- `strconv.underscoreOK`, the scan: `saw` is 0 = beginning, 1 = digit or base prefix, 2 = underscore, 3 = other -/
+def usScan (hex : Bool) : Nat → Str → Bool
+  | saw, [] => saw != 2
+  | saw, c :: r =>
+    if isDigit c || (hex && isHexLetter c) then usScan hex 1 r
+    else if c = 95 then (if saw != 1 then false else usScan hex 2 r)
+    else if saw = 2 then false
+    else usScan hex 3 r
+
+/-- `strconv.underscoreOK`: an underscore only between digits, or between a base prefix (`0b`, `0o`, `0x`) and a digit -/
+def underscoreOK (t : Str) : Bool :=
+  match dropSign t with
+  | 48 :: c :: r =>
+    if c = 98 ∨ c = 66 ∨ c = 111 ∨ c = 79 then usScan false 1 r
+    else if c = 120 ∨ c = 88 then usScan true 1 r
+    else usScan false 0 (48 :: c :: r)
+  | s => usScan false 0 s
+
+/-- `readFloat` switches to base 16: behind the optional sign `0x` / `0X` and at least one more byte -/
+def hexFloatPrefixed (t : Str) : Bool :=
+  match dropSign t with
+  | 48 :: c :: _ :: _ => c == 120 || c == 88
+  | _ => false
+
+/-- the text before the first 'p' / 'P' and, if there is one, everything behind it -/
+def splitP : Str → Str × Option Str
+  | [] => ([], none)
+  | c :: t => if c = 80 ∨ c = 112 then ([], some t) else (c :: (splitP t).1, (splitP t).2)
+
+/-- exponent digits, underscores skipped (their placement is judged by `underscoreOK`): `[+-]? digit (digit | '_')*` -/
+def parseExponentU? (ex : Str) : Option Int :=
+  let body := dropSign ex
+  let neg := ex.head? = some 45
+  match body with
+  | [] => none
+  | c :: _ =>
+    if !isDigit c ∨ (body.all (fun d => isDigit d || d == 95)) = false then none
+    else
+      let e := expAcc (body.filter (· != 95))
+      some (if neg then -(e : Int) else (e : Int))
+
+/-- a hexadecimal float `[+-]? 0x hexdigit* ('.' hexdigit*)? p [+-]? digit+` (underscores skipped): sign, all mantissa
+    digits as one number, number of fraction digits, binary exponent -/
+def parseHexLit? (t : Str) : Option (Bool × Nat × Nat × Int) :=
+  let neg := t.head? = some 45
+  match dropSign t with
+  | 48 :: _ :: rest =>
+    match (splitP rest).2 with
+    | none => none                                   -- "must have exponent"
+    | some ex =>
+      let mant := (splitP rest).1.filter (· != 95)
+      let ip := (splitDot mant).1
+      let fp := (splitDot mant).2.getD []
+      if (ip ++ fp) = [] ∨ (ip ++ fp).all isHexDigit = false then none
+      else match parseExponentU? ex with
+        | none => none
+        | some E => some (neg, parseHexDigits (ip ++ fp), fp.length, E)
+  | _ => none
+
+/-- the float64 nearest to `±H · 2^(E − 4k)` -/
+def hexValue (neg : Bool) (H k : Nat) (E : Int) : Flt :=
+  if H = 0 then .fin neg 0 (-1074)
+  else if E - 4 * k ≥ 0 then GoSem.F64.ofRat neg (H * 2^(E - 4 * k).toNat) 1
+  else GoSem.F64.ofRat neg H (2^(-(E - 4 * k)).toNat)
+
+/-- the decimal exponent grammar with underscores skipped -/
+def parseExpLitU? (t : Str) : Option (Bool × Nat × Nat × Int) :=
+  match (splitExp t).2 with
+  | none => none
+  | some ex =>
+    match parseDec? ((splitExp t).1.filter (· != 95)), parseExponentU? ex with
+    | some (neg, N, k), some E => some (neg, N, k, E)
+    | _, _ => none
+
+def finiteOrErr : Flt → Option Flt
+  | .inf _ => none
+  | x => some x
+
+/-- `strconv.ParseFloat(t, 64)` on ANY text containing 'e' / 'E' (the texts of the exponent branch) -/
+def parseFloatAny (t : Str) : Option Flt :=
+  if hexFloatPrefixed t then
+    (if t.any (· == 95) && !underscoreOK t then none
+     else match parseHexLit? t with
+      | none => none
+      | some (neg, H, k, E) => finiteOrErr (hexValue neg H k E))
+  else if t.any (· == 95) then
+    (if !underscoreOK t then none
+     else match parseExpLitU? t with
+      | none => none
+      | some (neg, N, k, E) => finiteOrErr (expValue neg N k E))
+  else parseFloatExp t
+
 /-- the exponent branch of `f64.FromString[T]` on the comma-free text -/
 def expBranch64 (mult : Int) (t : Str) : ResX :=
-  if outsideExp t then .outside
-  else match parseFloatExp t with
-    | none => .err
-    | some x =>
-      match Fixed.F64.fromFloat mult x with
-      | .ok v => .ok v
-      | .implDefined => .implDefined
+  match parseFloatAny t with
+  | none => .err
+  | some x =>
+    match Fixed.F64.fromFloat mult x with
+    | .ok v => .ok v
+    | .implDefined => .implDefined
 
 /-- the exponent branch of `f128.FromString[T]` on the comma-free text -/
 def expBranch128 (places : Nat) (mult : Int) (t : Str) : ResX :=
-  if outsideExp t then .outside
-  else match parseFloatExp t with
-    | none => .err
-    | some x =>
-      match Fixed.F128.fromFloat mult places x with
-      | some v => .ok v
-      | none => .panic
+  match parseFloatAny t with
+  | none => .err
+  | some x =>
+    match Fixed.F128.fromFloat mult places x with
+    | some v => .ok v
+    | none => .panic
 
 /-- `f64.FromString[T]`, every branch -/
 def fromStrX64 (places : Nat) (mult : Int) (s : Str) : ResX :=
